@@ -138,6 +138,30 @@ Theorem C01_unfolding_closed_under_children : forall h, Inv h -> forall r x c,
 Proof. exact AT.Proofs.ForestCover.pre_closed. Qed.
 Print Assumptions C01_unfolding_closed_under_children.
 
+(** ... and lists no node twice: with C05 (the iterators enumerate the
+    unfolding) "every node of the subtree exactly once" is a statement about
+    the links themselves *)
+Theorem C01_unfolding_lists_each_node_once : forall h, Inv h -> forall r,
+  NoDup (AT.Spec.IterSpec.preorder (AT.Model.Abs.tree_of h r)).
+Proof. exact AT.Proofs.ForestCover.tree_of_nodup. Qed.
+Print Assumptions C01_unfolding_lists_each_node_once.
+
+(** the forest, in one statement: the unfoldings of the parentless nodes,
+    concatenated, are a permutation of the node universe - every node in
+    exactly one tree, exactly once *)
+Theorem C01_roots_partition_universe : forall h, Inv h ->
+  Permutation.Permutation
+    (flat_map (fun r => AT.Spec.IterSpec.preorder (AT.Model.Abs.tree_of h r)) (AT.Proofs.ForestCover.roots h))
+    (seq 0 (length h)).
+Proof. exact AT.Proofs.ForestCover.roots_partition. Qed.
+Print Assumptions C01_roots_partition_universe.
+
+Example C01_partition_example :
+  let h := attach_links (attach_links (init 4) 1 0) 3 2 in
+  AT.Proofs.ForestCover.roots h = [0; 2] /\
+  flat_map (fun r => AT.Spec.IterSpec.preorder (AT.Model.Abs.tree_of h r)) (AT.Proofs.ForestCover.roots h) = [0; 1; 2; 3].
+Proof. vm_compute. split; reflexivity. Qed.
+
 Example C01_example :
   let h := attach_links (attach_links (init 4) 1 0) 3 2 in
   Inv h /\ valid_op (length h) (SetChildren 0 (CList [VNode 3; VNode 0])) /\
